@@ -122,3 +122,19 @@ func (mgr *Manager) VerifDump() VerifState {
 
 // VerifViewIndexes returns the readers a view holds (nil before its first use).
 func (v *View) VerifViewIndexes() []*index.Reader { return v.indexes }
+
+// VerifCloseIndexes closes every index reader the manager still holds. Close leaves them to the
+// end of the process; the harness runs thousands of services in one process.
+func (mgr *Manager) VerifCloseIndexes() {
+	c := make(chan struct{})
+	mgr.jobs <- func() {
+		for r := range mgr.usedIndexes {
+			r.Close()
+		}
+		for _, r := range mgr.indexes {
+			r.Close()
+		}
+		close(c)
+	}
+	<-c
+}
